@@ -488,6 +488,11 @@ class _World:
             self.state = self.capture('end', ())
             raise _Stop()
         self.get_timeouts.append((block, timeout))
+        if self.echoed and self.sub > self.acc:
+            # the loop is replacing the frame in hand (window of the alternating-bit protocol is 1):
+            # a submitted packet the peer has not accepted by now will never be transmitted again
+            self.bad('uplink:lost', 'radio loop asks for the next packet while submitted packet #%d %r has not been '
+                     'accepted by the peer' % (self.acc, _up_packet(self.acc)))
         c = self.choose('app', (A_NONE, A_SUBMIT))
         self.log('out_queue.get(block=%r, timeout=%r): %s' % (block, timeout, A_NAMES[c]))
         if c == A_SUBMIT:
@@ -635,6 +640,9 @@ def _bfs(ck, cfg, max_depth):
     by_mode = {}
     sample_for = {}
     while frontier:
+        if len(seen) > 600000:
+            p.cap('C01 N=%d rate=%r: state cap 600000 reached at depth %d' % (cfg[0], cfg[1], depth))
+            break
         if depth >= max_depth:
             p.cap('C01 N=%d rate=%r: BFS depth cap %d reached with %d frontier states' % (
                 cfg[0], cfg[1], max_depth, len(frontier)))
